@@ -3,6 +3,7 @@ mod absout;
 mod concretise;
 mod facets;
 mod run;
+mod sink;
 #[allow(dead_code, unused_imports, clippy::all)]
 #[path = "/repo/zeep-lib/src/model/helpers_content.rs"]
 pub mod hc;
